@@ -66,12 +66,16 @@ class FilterSummary:
         if self.p_cons is None or self.p_logger is None:
             raise AnalysisError("candidate filter is no longer called with the logger and the constraint callable")
         rets = [n for n in ast.walk(fn.node) if isinstance(n, ast.Return) and n.value is not None]
-        if not rets or not all(isinstance(r.value, ast.Name) for r in rets):
-            raise AnalysisError("candidate filter does not return a local array")
-        self.result = rets[-1].value.id
+        if not rets:
+            raise AnalysisError("candidate filter returns nothing")
+        self.rets = rets
         self.ret = rets[-1]
+        self.result = rets[-1].value.id if isinstance(rets[-1].value, ast.Name) else self.p_rows
         self.stages: List[Stage] = []
+        self._stage_of_value: Dict[int, Stage] = {}
+        self.chain: Set[str] = set()
         self._classify()
+        self._flow = None
 
     # ------------------------------------------------------------------
     def _defs_of(self, name, at):
@@ -84,32 +88,78 @@ class FilterSummary:
                 return d[0]
         return e
 
-    def _classify(self):
-        fn, res = self.fn, self.result
-        stores = [(s.lineno, v, s, k) for t, v, s, k in iter_stores(fn.node) if isinstance(t, ast.Name) and t.id == res]
-        stores.sort(key=lambda x: x[0])
-        for _l, v, s, k in stores:
-            self.stages.append(self._classify_one(v, s))
+    # ---- the 'array chain': the rows parameter and every local derived from it by copies, clamps and row selections
+    def _base_of(self, v) -> Optional[str]:
+        """name of the chain variable ``v`` is computed from (copy / clamp / row selection), else None."""
+        inner = v
+        while True:
+            if isinstance(inner, ast.Call) and isinstance(inner.func, ast.Attribute) and inner.func.attr in ("copy", "astype") and not isinstance(inner.func.value, ast.Call):
+                inner = inner.func.value
+            elif isinstance(inner, ast.Call) and call_name(inner) in ("np.copy", "np.atleast_2d", "np.asarray", "np.array") and inner.args:
+                inner = inner.args[0]
+            else:
+                break
+        if isinstance(inner, ast.Name) and inner.id in self.chain:
+            return inner.id
+        if isinstance(inner, ast.Subscript) and isinstance(inner.value, ast.Name) and inner.value.id in self.chain:
+            return inner.value.id
+        if isinstance(inner, ast.Call) and call_name(inner) in ("np.minimum", "np.maximum", "np.clip", "np.fmin", "np.fmax"):
+            for a in inner.args:
+                b = self._base_of(a)
+                if b is not None:
+                    return b
+        return None
 
-    def _classify_one(self, v, s) -> Stage:
-        res = self.result
+    def _classify(self):
+        fn = self.fn
+        self.chain = {self.p_rows}
+        changed = True
+        while changed:
+            changed = False
+            for t, v, s, k in iter_stores(fn.node):
+                if isinstance(t, ast.Name) and t.id not in self.chain and v is not None and k == "assign" and self._base_of(v) is not None:
+                    self.chain.add(t.id)
+                    changed = True
+        stores = [(s.lineno, t.id, v, s) for t, v, s, k in iter_stores(fn.node) if isinstance(t, ast.Name) and t.id in self.chain and v is not None and k == "assign"]
+        stores.sort(key=lambda x: x[0])
+        for _l, tname, v, s in stores:
+            base = self._base_of(v)
+            if base is None:
+                st = Stage("other", s, {"value": canon(v)}, False, f"result rows are re-computed by {canon(v)[:60]} (not a clamp and not a row selection)")
+            else:
+                st = self._classify_one(v, s, base)
+            st.base, st.target = base, tname
+            self._stage_of_value[id(v)] = st
+            if st.kind != "alias":
+                self.stages.append(st)
+
+    def _classify_one(self, v, s, base) -> Stage:
+        res = base
+        self._cur_base = base
         # ---- box clamp
         for val, lo, hi in match_clamp_all(v) if isinstance(v, ast.Call) else []:
-            if canon(val) in (self.p_rows, res):
+            if canon(val) == base:
                 ok = canon(lo) == self.p_lo and canon(hi) == self.p_hi
                 return Stage("box-clamp", s, {"value": canon(val), "lo": canon(lo), "hi": canon(hi)}, ok,
                              "" if ok else f"clamp bounds are ({canon(lo)}, {canon(hi)}), expected ({self.p_lo}, {self.p_hi})")
-        if isinstance(v, ast.Call) and call_name(v) in ("np.minimum", "np.maximum", "np.fmin", "np.fmax") and any(canon(a) in (self.p_rows, res) for a in v.args):
+        if isinstance(v, ast.Call) and call_name(v) in ("np.minimum", "np.maximum", "np.fmin", "np.fmax") and any(canon(a) == base for a in v.args):
             return Stage("box-clamp", s, {}, False, "one-sided clamp: candidates are projected onto one bound only")
-        # ---- selection of itself / of the rows parameter
+        # ---- selection of rows of the base / plain copy
         inner = v
-        while isinstance(inner, ast.Call) and isinstance(inner.func, ast.Attribute) and inner.func.attr == "copy":
-            inner = inner.func.value
-        if isinstance(inner, ast.Subscript) and canon(inner.value) in (self.p_rows, res):
+        while True:
+            if isinstance(inner, ast.Call) and isinstance(inner.func, ast.Attribute) and inner.func.attr in ("copy", "astype"):
+                inner = inner.func.value
+            elif isinstance(inner, ast.Call) and call_name(inner) in ("np.copy", "np.atleast_2d", "np.asarray", "np.array") and inner.args:
+                inner = inner.args[0]
+            else:
+                break
+        if isinstance(inner, ast.Name) and inner.id == base:
+            return Stage("alias", s, {}, True, "")
+        if isinstance(inner, ast.Subscript) and canon(inner.value) == base:
             sel = inner.slice
             if isinstance(sel, ast.Tuple):
                 sel = sel.elts[0]
-            return self._classify_selection(sel, s, canon(inner.value))
+            return self._classify_selection(sel, s, base)
         return Stage("other", s, {"value": canon(v)}, False, f"result rows are re-computed by {canon(v)[:60]} (not a clamp and not a row selection)")
 
     def _classify_selection(self, sel, s, base) -> Stage:
@@ -152,7 +202,7 @@ class FilterSummary:
             if u is not None:
                 src, call = u
                 srcd = self._single_def(src, s) if isinstance(src, ast.Name) else src
-                if canon(src) in (base, self.result) and sub is None:
+                if canon(src) == base and sub is None:
                     axis0 = kw(call, "axis") is not None and const_num(kw(call, "axis")) == 0
                     return Stage("dedupe", s, {"order_restored": sorted_}, axis0, "" if axis0 else "np.unique without axis=0 flattens the rows")
                 # (c) removal of evaluated rows through unique of a stack
@@ -242,7 +292,7 @@ class FilterSummary:
         if "LOG.X" in c or (self.p_logger and f"{self.p_logger}.X" in c):
             return "log"
         names = {n.id for n in ast.walk(e) if isinstance(n, ast.Name)}
-        if self.result in names or self.p_rows in names:
+        if names & self.chain:
             return "cand"
         for n in names:
             for d in self._defs_of(n, at):
@@ -302,7 +352,7 @@ class FilterSummary:
         if not (isinstance(cdef, ast.Call) and canon(cdef.func) == self.p_cons and cdef.args):
             return None
         xdef = self._single_def(cdef.args[0], s)
-        inv_ok = isinstance(xdef, ast.Call) and isinstance(xdef.func, ast.Attribute) and xdef.func.attr == self.R.inverse.name and xdef.args and canon(xdef.args[0]) == self.result
+        inv_ok = isinstance(xdef, ast.Call) and isinstance(xdef.func, ast.Attribute) and xdef.func.attr == self.R.inverse.name and xdef.args and canon(xdef.args[0]) == getattr(self, '_cur_base', self.result)
         keeps = {ast.LtE: "C <= 0", ast.Lt: "C < 0"}.get(op)
         detail = {"mask": f"C {op.__name__} 0", "on_inverse_of_result": bool(inv_ok)}
         if keeps is None:
@@ -315,28 +365,95 @@ class FilterSummary:
     def stage(self, kind) -> List[Stage]:
         return [s for s in self.stages if s.kind == kind]
 
+    def path_tags(self) -> FrozenSet[str]:
+        """stage tags that hold for the returned rows on *every* path (must-dataflow over the filter's CFG): BOX, UNIQ,
+        REM (evaluated-row removal applied), FEAS.  An empty array satisfies every row-wise property (the branch on which
+        ``rows.size == 0``), and FEAS is vacuous on the branch where the constraint callable is None."""
+        if self._flow is None:
+            self._flow = TagFlow(self.prog, self.fn, _FilterPolicy(self))
+        acc = None
+        for r in self.rets:
+            t = self._flow.tags(r.value)
+            if t is None:
+                continue
+            acc = t if acc is None else acc & t
+        return acc if acc is not None else frozenset()
+
     def result_tags(self) -> FrozenSet[str]:
-        """tags the filter establishes for its result *relative to its
-        arguments*: BOX (to the bound arguments), FEAS (w.r.t. the constraint
-        argument), UNIQ."""
-        tags = set()
-        cfg = cfg_of(self.fn)
-        retn = cfg.node_of(self.ret)
-        box = [s for s in self.stages if s.kind in ("box-clamp", "box-drop")]
-        later_bad = [s for s in self.stages if s.kind == "other"]
-        if box and all(b.ok for b in box) and not later_bad:
-            # on every path to the return exactly one box stage executes
-            heads = [cfg.node_of(b.stmt).id for b in box]
-            if not cfg.can_reach(cfg.entry.id, retn.id, avoiding=set(heads)):
-                tags.add("BOX")
-        cons = self.stage("constraint")
-        if cons and all(c.ok for c in cons) and not later_bad:
-            last = max(self.stages, key=lambda s: s.stmt.lineno)
-            if last.kind == "constraint":
-                tags.add("FEAS")
-        if self.stage("dedupe") and all(d.ok for d in self.stage("dedupe")):
-            tags.add("UNIQ")
-        return frozenset(tags)
+        """tags the filter establishes for its result *relative to its arguments*: BOX (to the bound arguments), FEAS
+        (w.r.t. the constraint argument), UNIQ."""
+        return frozenset(self.path_tags() & {"BOX", "FEAS", "UNIQ"})
+
+
+_STAGE_TAG = {"box-clamp": "BOX", "box-drop": "BOX", "dedupe": "UNIQ", "removal": "REM", "constraint": "FEAS"}
+_FILTER_ALL = frozenset({"BOX", "UNIQ", "REM", "FEAS"})
+
+
+class _FilterPolicy(BasePolicy):
+    row_select_preserves = False
+
+    def __init__(self, fs: "FilterSummary"):
+        self.fs = fs
+
+    def initial(self, flow):
+        return {self.fs.p_rows: EMPTY}
+
+    def eval(self, expr, state, flow):
+        st = self.fs._stage_of_value.get(id(expr))
+        if st is not None:
+            base = state.get(st.base, EMPTY)
+            if st.kind == "other":
+                return EMPTY
+            tag = _STAGE_TAG.get(st.kind)
+            if tag == "REM":
+                return base | {"REM"}  # whether the idiom removes anything is R2's verdict; here: the stage is applied
+            if tag is not None and st.ok:
+                if tag == "FEAS" and "BOX" not in base:
+                    return base  # a constraint evaluated on rows that are not boxed yet does not count
+                return base | {tag}
+            if st.kind in ("box-clamp", "box-drop", "constraint", "dedupe") and not st.ok:
+                return base - {tag} if tag else base
+            return base  # alias / unknown selection: rows remain a subset
+        if isinstance(expr, ast.Name):
+            return state.get(expr.id, EMPTY)
+        return EMPTY
+
+    def eval_unpack(self, value, i, n, state, flow):
+        return EMPTY
+
+    def refine(self, test, polarity, state, flow):
+        from ..terms import conjuncts
+
+        fs = self.fs
+        for c, pol in conjuncts(test, polarity):
+            # the constraint callable is absent on this edge
+            if isinstance(c, ast.Compare) and len(c.ops) == 1 and canon(c.left) == fs.p_cons and isinstance(c.comparators[0], ast.Constant) and c.comparators[0].value is None:
+                absent = isinstance(c.ops[0], ast.Is) == pol
+                if isinstance(c.ops[0], (ast.Is, ast.IsNot)) and absent:
+                    for k in list(state):
+                        state[k] = state[k] | {"FEAS"}
+            # the array is empty on this edge
+            arr, empty = None, None
+            e = c
+            if isinstance(e, ast.Compare) and len(e.ops) == 1 and const_num(e.comparators[0]) == 0:
+                l = e.left
+                if isinstance(l, ast.Attribute) and l.attr == "size" and isinstance(l.value, ast.Name):
+                    arr = l.value.id
+                elif isinstance(l, ast.Call) and call_name(l) == "len" and l.args and isinstance(l.args[0], ast.Name):
+                    arr = l.args[0].id
+                elif isinstance(l, ast.Subscript) and isinstance(l.value, ast.Attribute) and l.value.attr == "shape" and isinstance(l.value.value, ast.Name):
+                    arr = l.value.value.id
+                if arr is not None:
+                    op = type(e.ops[0])
+                    if op is ast.Eq:
+                        empty = pol
+                    elif op in (ast.Gt, ast.NotEq):
+                        empty = not pol
+            elif isinstance(e, ast.Attribute) and e.attr == "size" and isinstance(e.value, ast.Name):
+                arr, empty = e.value.id, not pol
+            if arr is not None and empty and arr in fs.chain:
+                state[arr] = state.get(arr, EMPTY) | _FILTER_ALL
+        return state
 
 
 class PointAnalysis:
